@@ -376,9 +376,15 @@ fn payload(m: &mut Msg, kind: &str, w: &[&str], pre: &[&'static str], cks: &mut 
                 if trk < 0.0 {
                     trk += 360.0;
                 }
-                let class = if st == 2 { "vel-supersonic-scale" } else { "vel-groundspeed" };
-                add("groundspeed", Exp::Num(gs, 1e-9 * gs.max(1.0)), class);
-                add("track", Exp::Num(trk, 1e-9 * 360.0), if st == 2 { "vel-supersonic-track" } else { "vel-track" });
+                add("groundspeed", Exp::Num(gs, 1e-9 * gs.max(1.0)), "vel-groundspeed");
+                add("track", Exp::Num(trk, 1e-9 * 360.0), "vel-track");
+                if st == 2 {
+                    // recorded deviation: the components are decoded with the subsonic LSB (1 kt), so the speed
+                    // reported is exactly a quarter of the encoded one; only that value is filed under the known
+                    // finding, any other wrong speed stays `vel-groundspeed`
+                    let quarter = gs / 4.0;
+                    quirks.push(("groundspeed", Some((Exp::Num(quarter, 1e-9 * quarter.max(1.0)), "vel-supersonic-scale"))));
+                }
             }
             expect_tail09(&mut add, svr, vr, sg, g);
         }
